@@ -7,7 +7,7 @@ def draws(s):
     return [s.next_float().hex(), s.next_int(0, 10 ** 6), s.next_float().hex()]
 
 
-def apply(cfg, order, history=False, reuse=False, late=False, via_info=False):
+def apply(cfg, order, history=False, reuse=False, late=False, via_info=False, custom=False):
     from pydsol.core.streams import MersenneTwister, SimpleStreamUpdater, StreamSeedUpdater
     streams = {}
     for name in order:
@@ -52,6 +52,16 @@ def apply(cfg, order, history=False, reuse=False, late=False, via_info=False):
     else:
         up = StreamSeedUpdater({k: list(v) for k, v in cfg["table"].items()})
     out = {}
+    if custom:
+        # a user-defined fallback installed after construction serves the streams without a seed list
+        from pydsol.core.streams import StreamUpdater
+
+        class Mine(StreamUpdater):
+            def update_seed(self, key, stream, replication_nr):
+                stream.set_seed(7000 + 13 * len(key) + replication_nr)
+        mine = Mine()
+        up.set_fallback_stream_updater(mine)
+        out["__fallback_getter_ok__"] = up.get_fallback_stream_updater() is mine
     if reuse:
         # the same updater object served other streams with the same names (other original seeds, another
         # replication number) before: an updater must not remember anything about streams it has seen
@@ -84,6 +94,8 @@ def main():
             r["alone"][n] = apply(dict(cfg, streams={n: cfg["streams"][n]}), [n]).get(n)
         r["late"] = apply(cfg, names, late=True) if cfg["updater"] == "table" else r["base"]
         r["info"] = apply(cfg, names, via_info=True) if cfg["updater"] == "table" else r["base"]
+        if cfg["updater"] == "table":
+            r["custom"] = apply(cfg, names, custom=True)
         if cfg["updater"] == "table":
             # what the fallback alone would do for every stream (oracle for unlisted streams)
             r["fallback"] = apply(dict(cfg, updater="simple"), names)
